@@ -106,6 +106,14 @@ Theorem C04_extent_paths_differ_at_end :
 Proof. exact extent_paths_differ_at_end. Qed.
 Print Assumptions C04_extent_paths_differ_at_end.
 
+(** the model's chrom_offset is the contract of indexes/chrom_offset read on the flat table:
+    the number of rows of the chromosomes before c *)
+Theorem C04_chrom_offset_counts : forall blocks c,
+  ValidBlocks blocks ->
+  chrom_offset blocks c = zlen (filter (fun x => bchrom x <? Z.of_nat c) (table blocks)).
+Proof. exact chrom_offset_counts. Qed.
+Print Assumptions C04_chrom_offset_counts.
+
 (** non-vacuity *)
 Example ex_C04_variable :
   let blocks := [[(0,0,3);(0,3,6);(0,6,8)]; [(1,0,4);(1,4,8)]; [(2,0,5)]] in
